@@ -181,6 +181,10 @@ func c02(c *Ctx) {
 		c02One(c, clients[r.Pick(len(clients))], op, serial, a, p, reply, int64(i), "random")
 	}
 
+	// ---- the application edits the statuses (and cards) it is given - its own values - and asks again: what comes back next is the
+	// decoding of the next reply, whatever was done to the earlier results
+	c02EditedResults(c, r)
+
 	// ---- per-field sweeps
 	caseNo := int64(100_000_000)
 	slot := 0
@@ -353,3 +357,86 @@ func c02(c *Ctx) {
 }
 
 func bcdb(n int) byte { return byte((n/10%10)<<4 | n%10) }
+
+// c02EditedResults: GetStatus / GetCardByIndex in a loop over the few door-flag patterns and door maps a site shows all day; after
+// each result has been compared with its reply the application overwrites the maps in it (flips every flag, deletes an entry, adds one).
+func c02EditedResults(c *Ctx, r gen.R) {
+	u, d := mkMemClient(ClientCfg{Broadcast: "192.168.1.255:60000"})
+	st := rm.FindOp("GetStatus")
+	l := st.ReplyLayout()
+	gc := rm.FindOp("GetCardByIndex")
+	lc := gc.ReplyLayout()
+	bad := 0
+	for i := 0; i < c.N(4000, 40000) && bad < 4; i++ {
+		serial := uint32(405419896 + i%3)
+		flags := [8]bool{}
+		pattern := []int{0, 0, 0x0f, 0xf0, 0xff, r.Pick(256)}[r.Pick(6)]
+		msg := okReply(st, serial)
+		for k := 0; k < 8; k++ {
+			flags[k] = pattern&(1<<k) != 0
+			name := fmt.Sprintf("Door%dState", k+1)
+			if k >= 4 {
+				name = fmt.Sprintf("Door%dButton", k-3)
+			}
+			v := uint64(0)
+			if flags[k] {
+				v = 1
+			}
+			rm.EncodeField(msg, *l.Field(name), rm.UVal(rm.Bool, v))
+		}
+		d.Reset()
+		d.Script = func(adapter.Invocation) ([][]byte, error) { return [][]byte{append([]byte{}, msg...)}, nil }
+		got, err := u.GetStatus(serial)
+		c.Res.Eval(1)
+		c.Res.DistinctKey("edited-results", "status", pattern)
+		if err != nil || got == nil {
+			continue // (what makes GetStatus fail is judged above)
+		}
+		for k := 0; k < 4; k++ {
+			if got.DoorState[uint8(k+1)] != flags[k] || got.DoorButton[uint8(k+1)] != flags[k+4] || len(got.DoorState) != 4 || len(got.DoorButton) != 4 {
+				bad++
+				c.Res.Violate("C02:GetStatus:after-the-application-edited-an-earlier-result", fmt.Sprintf("GetStatus: the reply carries door flags %08b (doors 1-4, buttons 1-4 from the low bit), the status returned has DoorState %v DoorButton %v - after the application had edited the door maps of statuses returned earlier", pattern, got.DoorState, got.DoorButton), map[string]any{"reply": wk.Hex(msg)}, int64(i))
+				break
+			}
+		}
+		// the application's edits
+		for k := range got.DoorState {
+			got.DoorState[k] = !got.DoorState[k]
+		}
+		delete(got.DoorState, 4)
+		got.DoorState[9] = true
+		for k := range got.DoorButton {
+			got.DoorButton[k] = !got.DoorButton[k]
+		}
+		delete(got.DoorButton, uint8(1+i%4))
+
+		// the same with a card's door map
+		doors := [4]uint8{uint8(i % 2), 1, uint8(r.Pick(3)), uint8([]int{0, 1, 29, 254}[r.Pick(4)])}
+		cm := okReply(gc, serial)
+		rm.EncodeField(cm, *lc.Field("CardNumber"), rm.UVal(rm.U32, 8000001))
+		rm.EncodeField(cm, *lc.Field("From"), rm.DateVal(2024, 1, 1))
+		rm.EncodeField(cm, *lc.Field("To"), rm.DateVal(2024, 12, 31))
+		for k := 0; k < 4; k++ {
+			rm.EncodeField(cm, *lc.Field(fmt.Sprintf("Door%d", k+1)), rm.UVal(rm.U8, uint64(doors[k])))
+		}
+		d.Reset()
+		d.Script = func(adapter.Invocation) ([][]byte, error) { return [][]byte{append([]byte{}, cm...)}, nil }
+		card, cerr := u.GetCardByIndex(serial, 1+uint32(i%50))
+		c.Res.Eval(1)
+		if cerr != nil || card == nil {
+			continue
+		}
+		for k := 0; k < 4; k++ {
+			if card.Doors[uint8(k+1)] != doors[k] || len(card.Doors) != 4 {
+				bad++
+				c.Res.Violate("C02:GetCardByIndex:after-the-application-edited-an-earlier-result", fmt.Sprintf("GetCardByIndex: the reply carries door permissions %v, the card returned has %v - after the application had edited the door maps of cards returned earlier", doors, card.Doors), map[string]any{"reply": wk.Hex(cm)}, int64(i))
+				break
+			}
+		}
+		for k := range card.Doors {
+			card.Doors[k] = 77
+		}
+		delete(card.Doors, 2)
+	}
+	c.Res.Count("results-edited-by-the-application-before-the-next-call", 1)
+}
